@@ -8,6 +8,14 @@
     elements, in the order, that a reference sequence contains"
                                                            -> list_step_refines, list_history_refines
    the same for PoolList (in-place construction = append)  -> poollist_step_refines, poollist_history_refines
+                                                              (PAppendN: every append overload, 0..7
+                                                              constructor arguments; the appended element
+                                                              is ctor_val args = T(a, b, ...), which by
+                                                              poollist_ctor_val_injective determines arity
+                                                              and arguments), source_tie (the overloads
+                                                              present in the source are arities 0..7 and
+                                                              all of the one shape; block size, reserve
+                                                              mask as read off the source)
    the same for Array (incl. resize, reserve, remove(idx)) -> array_step_refines, array_history_refines
    "every returned iterator or reference designates the documented element (the inserted one, or
     the successor of the removed one)"                     -> the `res` component of the three *_refines
@@ -41,7 +49,7 @@
    state: part of *_step_refines (invariants linv / ainv)  *)
 From Coq Require Import ZArith List Bool Sorting.Sorted Sorting.Permutation.
 From Common Require Import ListAux.
-From Seq Require Import SeqSpec SeqModel SeqSortProofs SeqSortPtrProofs SeqPoolProofs SeqLinkModel SeqLinkProofs SeqListProofs SeqArrayProofs.
+From Seq Require Import Gen_Seq SeqSpec SeqModel SeqSortProofs SeqSortPtrProofs SeqPoolProofs SeqLinkModel SeqLinkProofs SeqListProofs SeqArrayProofs SeqTieProofs.
 Import ListNotations.
 Local Open Scope Z_scope.
 
@@ -88,6 +96,36 @@ Example poollist_history_nonvacuous :
      ([[1; 3; 5]; []], RNone); ([[1; 3; 5; 6]; []], RRef 3%nat); ([[1; 3; 5]; []], RIt 3%nat);
      ([[]; [1; 3; 5]], RNone); ([[]; [3; 5]], RIt 0%nat); ([[]; []], RNone); ([[]; []], RSkip)].
 Proof. vm_compute. reflexivity. Qed.
+
+(* every append overload: the element is built from all the arguments, in their order *)
+Theorem poollist_ctor_val_injective : forall a b : list Z,
+    ctor_args_ok a = true -> ctor_args_ok b = true -> ctor_val a = ctor_val b -> a = b.
+Proof. exact ctor_val_injective. Qed.
+Print Assumptions poollist_ctor_val_injective.
+
+Example poollist_arities_nonvacuous :
+  lobs_trace (prun (linit 1) [PAppendN 0 []; PAppendN 0 [5]; PAppendN 0 [1; 2; 3]; PAppendN 0 [1; 2; 2];
+                              PAppendN 0 [1; 2; 3; 4; 5; 6; 7]; PAppendN 0 [1; 2; 3; 4; 5; 6; 7; 0]; PAppendN 0 [8]])
+  = [([[0]], RRef 0%nat); ([[0; 41]], RRef 1%nat); ([[0; 41; 1675]], RRef 2%nat); ([[0; 41; 1675; 1163]], RRef 3%nat);
+     ([[0; 41; 1675; 1163; 16434831]], RRef 4%nat); ([[0; 41; 1675; 1163; 16434831]], RSkip);
+     ([[0; 41; 1675; 1163; 16434831]], RSkip)].
+Proof. vm_compute. reflexivity. Qed.
+
+(* the constants / overload shapes read off the source text on every run are those of the models *)
+Theorem source_tie :
+    (forall args, ctor_args_ok args = true -> In (length args) gen_poollist_append_arities)
+    /\ (forall n, In n gen_poollist_append_arities -> ctor_args_ok (repeat 0 n) = true)
+    /\ (forall l, free l = [] ->
+          length (fst (fst (alloc l)) :: snd (fst (alloc l))) = gen_list_block_items
+          /\ gen_poollist_block_items = gen_list_block_items)
+    /\ (forall n a, cap a < n -> cap (a_reserve n a) = Z.lor n gen_array_reserve_mask).
+Proof. exact SeqTieProofs.source_tie. Qed.
+Print Assumptions source_tie.
+
+Example source_tie_nonvacuous :
+  gen_poollist_append_arities = [0; 1; 2; 3; 4; 5; 6; 7]%nat /\ fst (alloc nl_empty) = (3%nat, [2; 1; 0]%nat)
+  /\ cap (a_reserve 5 (mk_marr [1] 3 true)) = 7.
+Proof. vm_compute. split; [reflexivity|split; reflexivity]. Qed.
 
 (* ---- Array<T> ---------------------------------------------------------------------------- *)
 Theorem array_step_refines : forall (w : aworld) (op : aop) (w' : aworld) (r : mres),
